@@ -1381,7 +1381,14 @@ func (c *Conn) readLine() (string, error) {
 		}
 	}
 
-	return c.text.ReadLine()
+	line, err := c.text.ReadLine()
+	if err == nil && c.lineLimitReader.cutShort() && c.text.R.Buffered() == 0 {
+		// This is not a line but the beginning of a line that got too
+		// long: the buffered reader hands out what it has when its
+		// source fails.
+		return "", ErrTooLongLine
+	}
+	return line, err
 }
 
 func (c *Conn) reset() {
